@@ -317,6 +317,7 @@ def newAsync (kind : AKind) (p : List String) : Option (Except CErr (AState Floa
       let len := interpLen (ρ := Float) sl
       let ip : Interp σ :=
         if which == "probe" then probeInterp (ρ := Float) len osf
+        else if which == "lprobe" then lprobeInterp (ρ := Float) len osf
         else tableInterp (ρ := Float) len osf (interpCutoff fc r) w
       some (AState.init kind r mr .nearest it ip c n)
     | _, _, _, _, _, _, _, _, _ => none
